@@ -1,6 +1,7 @@
 package main
 
 import (
+	"go/ast"
 	"fmt"
 	"sort"
 	"strings"
@@ -163,6 +164,49 @@ func propC16(w *World, r *Report) {
 	checkRingMove(w, r, "R5")
 	// ... and only when a frame was accepted: a rejected (half-overwritten) slot must never become "the previous frame"
 	checkRingAdvancesOncePerFrame(w, r, runs, "R5", true, true)
+	// ... and the request path asks the ring on every request: the frame handed out is the result of a CopyRecent call
+	// made in this very request (a frame remembered from an earlier request may be older than the last completed one)
+	{
+		ringFld := runs.model.ringFld
+		nCalls := 0
+		for fn := range w.AllFuncs {
+			if rv := fn.Signature.Recv(); rv == nil || !isPtrTo(rv.Type(), c.T) || len(fn.Blocks) == 0 || fn.Signature.Results().Len() == 0 {
+				continue
+			}
+			// methods of the processor that hand out a *Frame
+			idx := -1
+			for i := 0; i < fn.Signature.Results().Len(); i++ {
+				if typeIs(fn.Signature.Results().At(i).Type(), "github.com/TheCacophonyProject/go-cptv/cptvframe", "Frame") {
+					idx = i
+				}
+			}
+			if idx < 0 || !ast.IsExported(fn.Name()) {
+				continue
+			}
+			for _, b := range fn.Blocks {
+				ret, ok := b.Instrs[len(b.Instrs)-1].(*ssa.Return)
+				if !ok {
+					continue
+				}
+				nCalls++
+				okFresh := false
+				if call, ok := ret.Results[idx].(*ssa.Call); ok && call.Block() != nil {
+					if callee := call.Call.StaticCallee(); callee != nil && callee.Name() == "CopyRecent" && len(call.Call.Args) == 1 {
+						if u, ok := call.Call.Args[0].(*ssa.UnOp); ok {
+							if fa, ok := u.X.(*ssa.FieldAddr); ok && fa.Field == ringFld && fa.X == ssa.Value(fn.Params[0]) {
+								okFresh = true
+							}
+						}
+						if fa, ok := call.Call.Args[0].(*ssa.FieldAddr); ok && fa.Field == ringFld && fa.X == ssa.Value(fn.Params[0]) {
+							okFresh = true
+						}
+					}
+				}
+				r.Check(okFresh, "R5", fn.Name()+": the frame handed out is this request's own CopyRecent() of the pre-trigger ring", w.InstrPos(ret), newTermEnv(w).termOf(ret.Results[idx]).String())
+			}
+		}
+		r.Check(nCalls >= 1, "G4", "a processor method hands out the recent frame", "-", fmt.Sprint(nCalls))
+	}
 	n := 0
 	for fn := range w.AllFuncs {
 		if rv := fn.Signature.Recv(); rv == nil || !isPtrTo(rv.Type(), c.T) || len(fn.Blocks) == 0 {
